@@ -488,6 +488,15 @@ inline bool drop_is_legit(const Cfg &cfg, const History &h, const Derived &d, co
     uint64_t entry = h.exports[it->second.front()].entry;
     if (entry < r.call)
       continue;  // certainly consumed before r's produce call began
+    // "never lost when at most max_queue_size records are produced between two completed
+    // flushes": a record produced before a ForceFlush that returned true before r was produced has
+    // been exported by then according to that flush, so it cannot be what fills the queue for r
+    bool flushed_out = false;
+    for (auto &f : h.ctl)
+      if (f.is_flush && f.result && q.ret < f.call && f.ret < r.call)
+        flushed_out = true;
+    if (flushed_out)
+      continue;
     ++possibly_queued;
   }
   if (possibly_queued >= cfg.queue)
